@@ -906,6 +906,64 @@ fn exec_op(out: &mut Out, st: &mut State, line: &str, a: &[&str], n: &dyn Fn(usi
                 None => ("dead".into(), false),
             }
         }
+        "annot" => {
+            // annot i kind k: an edit that makes the serialiser emit NEW related parts for sheet i
+            // (kind 0 = a comment -> comments + vmlDrawing, 1 = a table, 2 = a chart -> drawing + chart)
+            let (i, kind, k) = (n(2), n(3), n(4) as u32);
+            let (rl, re) = both(st, &|b: &mut Spreadsheet| {
+                let title = b.get_sheet_collection_no_check().get(i).map(|ws| ws.get_name().to_string()).unwrap_or_default();
+                match b.get_sheet_mut(&i) {
+                    Some(ws) => {
+                        match kind {
+                            0 => {
+                                let mut cm = umya_spreadsheet::structs::Comment::default();
+                                cm.new_comment(format!("D{}", 20 + k));
+                                cm.set_text_string(format!("added note {} on {}", k, i));
+                                cm.set_author("ann");
+                                ws.add_comments(cm);
+                            }
+                            1 => {
+                                let nm = format!("AddedT{}x{}", i, k);
+                                let (r0, r1) = (30 + 4 * k, 32 + 4 * k);
+                                let mut t = umya_spreadsheet::structs::Table::new(&nm, (format!("A{}", r0).as_str(), format!("B{}", r1).as_str()));
+                                t.set_display_name(&nm);
+                                t.add_column(umya_spreadsheet::structs::TableColumn::new("h1"));
+                                t.add_column(umya_spreadsheet::structs::TableColumn::new("h2"));
+                                ws.get_cell_mut(format!("A{}", r0).as_str()).set_value_string("h1");
+                                ws.get_cell_mut(format!("B{}", r0).as_str()).set_value_string("h2");
+                                ws.add_table(t);
+                            }
+                            _ => {
+                                for r in 1..=3u32 {
+                                    ws.get_cell_mut((9, r)).set_value_number((r * 2 + k) as f64);
+                                }
+                                let mut from_marker = umya_spreadsheet::structs::drawing::spreadsheet::MarkerType::default();
+                                let mut to_marker = umya_spreadsheet::structs::drawing::spreadsheet::MarkerType::default();
+                                from_marker.set_coordinate("K2");
+                                to_marker.set_coordinate("P14");
+                                let area = format!("'{}'!$I$1:$I$3", title.replace('\'', "''"));
+                                let mut chart = umya_spreadsheet::structs::Chart::default();
+                                chart.new_chart(umya_spreadsheet::structs::ChartType::LineChart, from_marker, to_marker, vec![&area]).set_series_title(vec!["S"]).set_series_point_title(vec!["a", "b", "c"]);
+                                ws.add_chart(chart);
+                            }
+                        }
+                        "ok".to_string()
+                    }
+                    None => "none".to_string(),
+                }
+            });
+            match agree(out, st, rl, re, true) {
+                Some(r0) => {
+                    if r0 == "ok" {
+                        st.edited[i] = true;
+                        (format!("ok {}", status(st.lazy.as_ref().unwrap())), true)
+                    } else {
+                        (r0, false)
+                    }
+                }
+                None => ("dead".into(), false),
+            }
+        }
         "newsheet" => {
             let nm = String::from_utf8_lossy(&unhex(a.get(2).copied().unwrap_or("-"))).to_string();
             let (rl, re) = both(st, &|b: &mut Spreadsheet| if b.new_sheet(nm.clone()).is_ok() { "ok".into() } else { "err".into() });
@@ -1407,6 +1465,10 @@ fn perms_of_subsets(n: usize) -> Vec<Vec<usize>> {
 }
 
 fn access_op(rng: &mut Rng, i: usize) -> String {
+    if rng.chance(1, 5) {
+        // an edit that adds related parts (comments / table / drawing+chart) to the sheet
+        return format!("c11 annot {} {} {}", i, rng.below(3), rng.below(3));
+    }
     match rng.below(4) {
         0 => format!("c11 read {}", i),
         1 => format!("c11 getmut {}", i),
